@@ -1843,7 +1843,7 @@ bn_is_bit_set(bn_p bn, size_t bit) {
 	if (NULL == bn)
 		return (0);
 #if 1
-	if (BN_DIGIT_BITS > bit)
+	if (BN_DIGIT_BITS > bit && 0 != bn->digits) /* Zero: num[0] is not defined. */
 		return (0 != (bn->num[0] & (((bn_digit_t)1) << bit)));
 #endif
 	if ((bn->digits * BN_DIGIT_BITS) <= bit)
@@ -2833,8 +2833,9 @@ bn_calc_jsf(bn_p a, bn_p b, size_t jsf_arr_size,
 
 	while ((0 == bn_is_zero(&tmA) || 0 != d0) ||
 	    (0 == bn_is_zero(&tmB) || 0 != d1)) {
-		l0 = (((int8_t)tmA.num[0] + d0) & 0x7); /* mod 8. */
-		l1 = (((int8_t)tmB.num[0] + d1) & 0x7);
+		/* Zero: num[0] is not defined. */
+		l0 = (((int8_t)((0 != tmA.digits) ? tmA.num[0] : 0) + d0) & 0x7); /* mod 8. */
+		l1 = (((int8_t)((0 != tmB.digits) ? tmB.num[0] : 0) + d1) & 0x7);
 
 		if (0 != bn_digit_is_even(l0)) {
 			itm = 0;
